@@ -43,6 +43,9 @@ def errName : E → String
   | .chunk => "chunk"
   | .contentLength => "contentLength"
   | .other => "other"
+  | .invalidBaseUrl => "invalidBaseUrl"
+  | .invalidUrlHost => "invalidUrlHost"
+  | .invalidUrlPort => "invalidUrlPort"
 
 def segOfString (s : String) : Option Seg :=
   match s.toList with
